@@ -139,6 +139,9 @@ func execGreedy(g *graph.DGraph, params graph.Params) {
 }
 
 func (p *greedyProcessor) pickNode(nodes []*graph.Node, random bool) *graph.Node {
+	if i, ok := verifPick(len(nodes), random); ok {
+		return nodes[i]
+	}
 	if random {
 		return nodes[p.rnd.Intn(len(nodes))]
 	}
